@@ -234,6 +234,21 @@ class Server:
             return self.os.profile(self.mins, self.url, status="1", with_profrs=False).encode()
         if kind == "error":
             return self.os.profile(self.mins, self.url, status="2000", with_profrs=False).encode()
+        if kind == "invalid":
+            # a well-formed answer with status 0 and a newer DTPROFUP whose PROFRS is invalid elsewhere
+            # (required COUNTRY missing / over-long STATE / CITY and STATE out of order)
+            self.ninvalid = getattr(self, "ninvalid", 0) + 1
+            good = self.os.profile(self.mins, self.url, dtprofup="202001%02d000000.000[+0:UTC]" % min(self.dt + 1, 28))
+            how = self.ninvalid % 3
+            if how == 0:
+                bad = re.sub(r"<COUNTRY>[^<]*</COUNTRY>", "", good, count=1)
+            elif how == 1:
+                bad = re.sub(r"<STATE>[^<]*</STATE>", "<STATE>ABCDEFGHIJ</STATE>", good, count=1)
+            else:
+                bad = re.sub(r"(<CITY>[^<]*</CITY>)(<STATE>[^<]*</STATE>)", r"\2\1", good, count=1)
+            if bad == good:
+                raise RuntimeError("pc_sched: could not make the profile invalid")
+            return bad.encode()
         if kind == "garbage":
             return b"<html><body>Service unavailable</body></html>"
         if kind == "neterr":
